@@ -121,8 +121,13 @@ func (e *DefaultCompactionExecutor) CompactFiles(task *CompactionTask) ([]string
 		var shouldKeep bool
 		isTombstone := mergedIter.IsTombstone()
 
-		if tombstoneFilter != nil && isTombstone {
-			// Use the tombstone filter for tombstones
+		if isTombstone && !task.DropTombstones {
+			// An older version of the key may live in a table that is not an input: the
+			// marker must stay, whatever the in-memory tracker remembers (it is empty after a
+			// restart and never hears of deletes committed by transactions)
+			shouldKeep = true
+		} else if tombstoneFilter != nil && isTombstone {
+			// Nothing older can resurface: the filter may still want to retain the marker
 			shouldKeep = tombstoneFilter.ShouldKeep(key, nil)
 		} else {
 			// Default logic - always keep non-tombstones, and keep tombstones in lower levels
